@@ -39,16 +39,18 @@ pub fn addr_hex(a: &crate::types::Address) -> String {
 include!("suite_pure.rs");
 include!("suite_table.rs");
 include!("suite_core.rs");
+include!("suite_rot.rs");
 
 pub struct State {
     pure_: PureState,
     table: TableState,
     core: CoreState,
+    rot: RotState,
 }
 
 impl State {
     fn new() -> Self {
-        State { pure_: PureState::new(), table: TableState::new(), core: CoreState::new() }
+        State { pure_: PureState::new(), table: TableState::new(), core: CoreState::new(), rot: RotState::new() }
     }
 
     fn step(&mut self, line: &str) -> String {
@@ -67,6 +69,9 @@ impl State {
             return r;
         }
         if let Some(r) = self.core.step(&toks) {
+            return r;
+        }
+        if let Some(r) = self.rot.step(&toks) {
             return r;
         }
         "bad-op".to_string()
